@@ -7,6 +7,8 @@ NOTES = {
     "C20_a": "first evaluation: NOT detected (every string_view operand lived in its own buffer); the C20 driver/generator was strengthened with aliasing SVA cases (two slices of one buffer, commit 5692c02) - now caught with a concrete input",
     "C16_b": "first evaluation: only 'no-failing-input-found' (garbage ids are non-zero, the SPEC accepted them); SPEC strengthened: installed ids must be the padded hex value of the header's id fields (commit 29082b0) - now a concrete VIOLATION (extract:overlong_id_installed)",
     "C01_b": "first evaluation: C02 concrete, C01 only 'no-failing-input-found'; the C01 history clause drop:within_flush_budget was added - now concrete for C01 too",
+    "C06_c": "first evaluation: NOT detected (a record/collect race window a few instructions wide; the real-thread RACE cases never hit it); C06 now runs SRACE cases under the deterministic scheduler shim with the schedule as an input (harness/c06_sched_driver.cc, coq/C06/SpecSched.v, commit f607e64) - caught with a replayable schedule",
+    "C05_c": "first evaluation: NOT detected (the driver only used scripted id generators); C05 now also drives the default RandomIdGenerator from several threads and checks freshness/parentage on an abstraction of the ids - caught with a concrete case",
     "C01_a": "the change is in CircularBuffer::Add: caught by C11 (ring under the shim); C01 runs use the queue as an atomic FIFO (one scheduling point per queue call) by design and cannot see it",
 }
 rows = []
